@@ -40,6 +40,16 @@ def c10_1(c: Ctx) -> None:
         c.ok(where(u, w), f'handler task awaited under wait_for(timeout={U(to)}) (the EventResult record)')
     else:
         c.fail(u, f'wait_for timeout is {U(to) if to is not None else "missing"}', "the handler is not cancelled at its result record's timeout", node=w)
+    # an async handler awaited inline (no task, no wait_for) is allowed only where no timeout exists at all (<record>.timeout is None)
+    g = c.cfg(u)
+    for x, call in [(x, call) for x, call in handler_invocations(c) if x.key == u.key and isinstance(parent(call), ast.Await)]:
+        atom = U(to) if ok else 'event_result.timeout'
+        facts = Facts(lambda a: a == atom, cg=c.cg, unit=u)
+        bad = [p for n in g.nodes_of(q.stmt_of(call)) if (p := q.guard_search(g, n, f'{atom} is None', facts)) is not None]
+        if bad:
+            c.fail(u, f'async handler awaited inline without wait_for: {U(parent(call))[:50]} (not restricted to `{atom} is None`)', 'a handler of an event that has a timeout (e.g. event_timeout=0) is not cancelled when the timeout expires', node=call, witness=c.path(g.entry, bad[0]))
+        else:
+            c.ok(where(u, call), f'inline await of the handler only where {atom} is None (nothing to enforce)')
     # direct await of the handler task elsewhere (unbounded) would bypass the timeout
     direct = [n for n in own_nodes(u.node) if isinstance(n, ast.Await) and U(n.value) == t]
     for n in direct:
@@ -251,6 +261,15 @@ def c10_5(c: Ctx) -> None:
     'still get its completion signal)')
 def c10_6(c: Ctx) -> None:
     escape_before_mark(c, lambda t: t.name == 'CancelledError', "an event whose processing is cancelled (parent handler timeout during inline processing, stop()) never gets its completion signal: awaiting it hangs")
+
+
+
+@ob('C10.7', 'ESC', 'after a handler timed out the remaining handlers of the event still run: the TimeoutError (an Exception) is contained per handler in both branches of '
+    '_execute_handlers (same obligation as C11.1)')
+def c10_7(c: Ctx) -> None:
+    from .c11 import c11_1
+
+    c11_1(c)
 
 
 OBLIGATIONS = ob.obs
